@@ -91,7 +91,7 @@ def remove_modes(s, modes):
 class C05:
     ID = "C05"
     RULE = ("random circuit trees (fockgen: nested heralded sub-circuits, 0-4 loss elements, lossless too; heralds as generated "
-            "[0-2 photons, input mode != output mode], or forced to equal modes, or forced to zero photons on equal modes) x "
+            "[0-2 photons, input mode != output mode], or forced to carry 1-2 photons, or output modes moved away from the input modes, or forced to equal modes, or forced to zero photons on equal modes) x "
             "post-selection (none / PostSelection rule sets on random mode tuples / Python functions) x 1-3 inputs of equal photon "
             "number (<= 3 photons incl. heralds in the quick tier) x expected mappings (single State, lists, outputs that are filtered "
             "away, none) x QuickSampler with photon_counting True and False; plus a malformed stream (wrong length, negative entry, "
@@ -99,7 +99,7 @@ class C05:
             "everything). Non-trivial = Analyzer returned >= 2 outputs for >= 2 photons in total, or a heralded / post-selected / lossy "
             "configuration; distinct = distinct JSON")
     COQ_TARGETS = ["theories/Exec/RunFock.vo"]
-    CHUNK = 6
+    CHUNK = 15
     TRUSTED = ["thewalrus.perm is the mathematical permanent (C03's oracle recomputes it by direct expansion)",
                "Python post-selection functions reach the model as the table of candidate states they accept",
                "RuntimeError / EmulatorError / RecursionError are compared as the class OtherError (not in the shared enum)"]
@@ -151,7 +151,7 @@ class C05:
 
     def generate(self, rng, tier):
         quick = tier == "quick"
-        n = 210 if quick else 3000
+        n = 480 if quick else 6000
         maxph = 3 if quick else 4
         cases = []
         for i in range(n):
@@ -161,15 +161,56 @@ class C05:
                 if m >= 2 or rng.random() < 0.15:
                     break
             prog = copy.deepcopy(prog)
-            variant = ["asis", "zero", "eqmodes", "zero", "asis", "zero"][i % 6]
-            if variant != "asis":
-                for o in prog:
-                    if o[0] == "herald":
-                        o[4] = None
-                        if variant == "zero":
-                            o[2] = 0
-                if variant == "zero":
-                    hp = 0
+            variant = ["asis", "photons", "eqmodes", "moved", "zero", "photons", "moved"][i % 7]
+            her = [o for o in prog if o[0] == "herald"]
+            if variant in ("zero", "eqmodes"):
+                for o in her:
+                    o[4] = None
+                    if variant == "zero":
+                        o[2] = 0
+            elif variant == "moved" and her:
+                # heralds whose input mode differs from the output mode: output modes of a circuit's heralds
+                # are shifted cyclically; a single herald moves to another mode of its circuit
+                size = {o[1]: o[2] for o in prog if o[0] in ("new", "unitary")}
+                for cid_ in sorted({o[1] for o in her}):
+                    grp = [o for o in her if o[1] == cid_]
+                    ims = [o[3] for o in grp]
+                    if len(grp) >= 2:
+                        for o, om in zip(grp, ims[1:] + ims[:1]):
+                            o[4] = om
+                    else:
+                        others = [q for q in range(size.get(cid_, 1)) if q != ims[0]]
+                        if others:
+                            grp[0][4] = rng.choice(others)
+                # and one more moved herald on the final circuit itself when it has room
+                used_in = {o[3] for o in her if o[1] == cid}
+                used_out = {(o[3] if o[4] is None else o[4]) for o in her if o[1] == cid}
+                free_in = [q for q in range(size.get(cid, 0)) if q not in used_in]
+                free_out = [q for q in range(size.get(cid, 0)) if q not in used_out]
+                if len(free_in) >= 3 and rng.random() < 0.7:
+                    im = rng.choice(free_in)
+                    oms = [q for q in free_out if q != im]
+                    if oms:
+                        extra = ["herald", cid, rng.choice([0, 1, 1]), im, rng.choice(oms)]
+                        prog.append(extra)
+                        her.append(extra)
+            elif variant == "photons" and her:
+                # make sure some heralds carry photons (at most 2 in total), on whatever modes were generated
+                for o in her:
+                    o[2] = 0
+                pick = rng.sample(her, min(len(her), rng.choice([1, 1, 2])))
+                if len(pick) == 1:
+                    pick[0][2] = rng.choice([1, 1, 2])
+                else:
+                    for o in pick:
+                        o[2] = 1
+            hp = sum(o[2] for o in her)
+            try:                                   # the final circuit decides (failed ops are skipped by run_impl)
+                circ_ = cg.run_impl(prog)[1][cid]
+                m = circ_.input_modes
+                hp = sum(circ_.heralds["input"].values())
+            except Exception:  # noqa: BLE001
+                pass
             photons = max(0, min(rng.choice([0, 1, 1, 2, 2, 2, 3, 3]), maxph - hp))
             k = rng.choice([1, 1, 2, 3])
             inputs = []
@@ -357,6 +398,7 @@ class C05:
         return {tuple(k.s): float(v) for k, v in d.items()}
 
     def oracle(self, c, obs):
+        """every sub-claim is evaluated; failures other than the Analyzer's refusal of photon-carrying / moved heralds come first."""
         circ = self._circuit(c)
         try:
             U = circ.U_full
@@ -367,13 +409,10 @@ class C05:
         hin, hout = dict(circ.heralds["input"]), dict(circ.heralds["output"])
         hp = sum(hin.values())
         ins = c["inputs"]
-        ps = c["psel"]
         # --- what the Simulator says about (circuit, inputs)
         sim = guard(lambda: emulator.Simulator(circ).simulate([lw.State(list(s)) for s in ins]))
-        an = obs["an"]
         if "ok" not in sim:
             return None          # the malformed stream is judged by the correspondence only
-        sres = sim["ok"]
         N = sum(ins[0])
         nfull = len(fg.fock_states(U.shape[0], N + hp))
         tol = EPS * nfull + 2e-9
@@ -384,18 +423,39 @@ class C05:
             if "ok" not in r:
                 return f"Sampler raises {r['err']} on input {s}, which the Simulator accepts"
             samp.append(r["ok"])
-        full_out = lambda o: tuple(fg.full_state(o, hout, 0))  # noqa: E731
-        # --- squared Simulator amplitudes = Sampler probabilities (lossless)
-        if loss == 0:
-            arr = np.asarray(sres.array)
-            for i, s in enumerate(ins):
-                for j, o in enumerate(sres.outputs):
-                    p2 = abs(arr[i, j]) ** 2
-                    for b in (0, 1):
-                        ps_ = samp[i][b].get(full_out(list(o)), 0.0)
-                        if abs(p2 - ps_) > tol:
-                            return (f"lossless circuit: |Simulator amplitude|^2 {s}->{list(o)} = {p2!r} but Sampler "
-                                    f"({('permanent', 'slos')[b]}) gives {ps_!r}")
+        ctx = dict(circ=circ, n=n, m=m, loss=loss, hin=hin, hout=hout, hp=hp, ins=ins, N=N, tol=tol, samp=samp,
+                   sim=sim["ok"], full_out=lambda o: tuple(fg.full_state(o, hout, 0)))
+        fails = []
+        for part in (self._o_simulator, self._o_quick, self._o_analyzer):
+            try:
+                f = part(c, obs, ctx)
+            except Exception as e:  # noqa: BLE001
+                f = f"oracle part {part.__name__} raised {type(e).__name__}: {e}"
+            if f:
+                fails.append(f)
+        return " ;; ".join(fails) if fails else None
+
+    def _o_simulator(self, c, obs, x):
+        """squared Simulator amplitudes = Sampler probabilities (lossless)."""
+        if x["loss"] != 0:
+            return None
+        sres, ins, samp, full_out, tol = x["sim"], x["ins"], x["samp"], x["full_out"], x["tol"]
+        arr = np.asarray(sres.array)
+        for i, s in enumerate(ins):
+            for j, o in enumerate(sres.outputs):
+                p2 = abs(arr[i, j]) ** 2
+                for b in (0, 1):
+                    ps_ = samp[i][b].get(full_out(list(o)), 0.0)
+                    if abs(p2 - ps_) > tol:
+                        return (f"lossless circuit: |Simulator amplitude|^2 {s}->{list(o)} = {p2!r} but Sampler "
+                                f"({('permanent', 'slos')[b]}) gives {ps_!r}")
+        return None
+
+    def _o_analyzer(self, c, obs, x):
+        ps = c["psel"]
+        ins, samp, full_out, tol = x["ins"], x["samp"], x["full_out"], x["tol"]
+        m, loss, N, hp, hin, hout = x["m"], x["loss"], x["N"], x["hp"], x["hin"], x["hout"]
+        an = obs["an"]
         # --- candidate outputs and post-selection by hand
         cand = []
         for k in ([N] if loss == 0 else range(N + 1)):
@@ -405,56 +465,62 @@ class C05:
             accepted = [o for o in cand if ref_psel(ps, o)]
         except IndexError:
             accepted = None
-        # --- Analyzer totality and values
         if "ok" not in an:
             if raises and an["err"] == "IndexError":
-                pass
-            elif accepted is not None and not accepted and an["err"] == "ValueError":
-                pass        # documented: no output passes the post-selection
-            elif c["expected"] is not None and any(s not in [k for k, _ in c["expected"]] for s in ins) and an["err"] == "KeyError":
-                pass        # documented: expected must cover every input
-            else:
-                why = []
-                if hp > 0:
-                    why.append("heralds carry photons")
-                if hin != hout:
-                    why.append("herald input mode != output mode")
-                return (f"Analyzer raises {an['err']} on a circuit/input the Simulator and Sampler accept"
-                        + (f" ({', '.join(why)})" if why else ""))
-        else:
-            outs, arr, perf, er = an["ok"]
-            if accepted is not None:
-                if sorted(map(tuple, outs)) != sorted(map(tuple, accepted)) or len(outs) != len(accepted):
-                    return f"Analyzer outputs {outs} are not exactly the outputs passing the post-selection {accepted}"
-            rowtot = []
-            for i, s in enumerate(ins):
-                ref = [samp[i][0].get(full_out(o), 0.0) for o in outs]
-                for j, o in enumerate(outs):
-                    for b in (0, 1):
-                        r = samp[i][b].get(full_out(o), 0.0)
-                        if abs(arr[i][j] - r) > tol:
-                            return (f"Analyzer P({s}->{o}) = {arr[i][j]!r} but Sampler.probability_distribution"
-                                    f"[{list(full_out(o))}] = {r!r} ({('permanent', 'slos')[b]})")
-                rowtot.append(sum(ref))
-            pref = sum(rowtot) / len(ins)
-            if abs(perf - pref) > tol * max(1, len(outs)):
-                return f"Analyzer performance {perf!r}, mean accepted total from the Sampler {pref!r}"
-            if c["expected"] is not None:
-                if er == []:
-                    return "expected mapping given but the result has no error_rate"
-                emap = {tuple(k): exp_list(v) for k, v in c["expected"]}
-                dup = any(len(set(map(tuple, v))) != len(v) for v in emap.values())
-                if not dup and min(rowtot) >= 1e-6:
-                    fr = []
-                    for i, s in enumerate(ins):
-                        good = sum(samp[i][0].get(full_out(o), 0.0) for o in emap[tuple(s)] if list(o) in outs)
-                        fr.append(good / rowtot[i])
-                    eref = 1 - sum(fr) / len(fr)
-                    if er[0] != 1 or abs(er[1] - eref) > 1e-7 + tol * len(outs) / min(rowtot):
-                        return f"Analyzer error_rate {er}, one minus the accepted-and-expected fraction from the Sampler {eref!r}"
-            elif er != []:
-                return "no expected mapping given but the result carries an error_rate"
-        # --- QuickSampler = Sampler conditioned on heralds, post-selection, no loss (<= 1 photon per mode), renormalised
+                return None
+            if accepted is not None and not accepted and an["err"] == "ValueError":
+                return None        # documented: no output passes the post-selection
+            if c["expected"] is not None and any(s not in [k for k, _ in c["expected"]] for s in ins) and an["err"] == "KeyError":
+                return None        # documented: expected must cover every input
+            why = []
+            if hp > 0:
+                why.append("heralds carry photons")
+            if hin != hout:
+                why.append("herald input mode != output mode")
+            return (f"Analyzer raises {an['err']} on a circuit/input the Simulator and Sampler accept"
+                    + (f" ({', '.join(why)})" if why else ""))
+        return self._an_values(c, x, accepted, *an["ok"])
+
+    def _an_values(self, c, x, accepted, outs, arr, perf, er):
+        ins, samp, full_out, tol = x["ins"], x["samp"], x["full_out"], x["tol"]
+        if accepted is not None:
+            if sorted(map(tuple, outs)) != sorted(map(tuple, accepted)) or len(outs) != len(accepted):
+                return f"Analyzer outputs {outs} are not exactly the outputs passing the post-selection {accepted}"
+        rowtot = []
+        for i, s in enumerate(ins):
+            ref = [samp[i][0].get(full_out(o), 0.0) for o in outs]
+            for j, o in enumerate(outs):
+                for b in (0, 1):
+                    r = samp[i][b].get(full_out(o), 0.0)
+                    if abs(arr[i][j] - r) > tol:
+                        return (f"Analyzer P({s}->{o}) = {arr[i][j]!r} but Sampler.probability_distribution"
+                                f"[{list(full_out(o))}] = {r!r} ({('permanent', 'slos')[b]})")
+            rowtot.append(sum(ref))
+        pref = sum(rowtot) / len(ins)
+        if abs(perf - pref) > tol * max(1, len(outs)):
+            return f"Analyzer performance {perf!r}, mean accepted total from the Sampler {pref!r}"
+        if c["expected"] is not None:
+            if er == []:
+                return "expected mapping given but the result has no error_rate"
+            emap = {tuple(k): exp_list(v) for k, v in c["expected"]}
+            dup = any(len(set(map(tuple, v))) != len(v) for v in emap.values())
+            if not dup and min(rowtot) >= 1e-6:
+                fr = []
+                for i, s in enumerate(ins):
+                    good = sum(samp[i][0].get(full_out(o), 0.0) for o in emap[tuple(s)] if list(o) in outs)
+                    fr.append(good / rowtot[i])
+                eref = 1 - sum(fr) / len(fr)
+                if er[0] != 1 or abs(er[1] - eref) > 1e-7 + tol * len(outs) / min(rowtot):
+                    return f"Analyzer error_rate {er}, one minus the accepted-and-expected fraction from the Sampler {eref!r}"
+        elif er != []:
+            return "no expected mapping given but the result carries an error_rate"
+        return None
+
+    def _o_quick(self, c, obs, x):
+        """QuickSampler = Sampler conditioned on heralds, post-selection, no loss (<= 1 photon per mode), renormalised."""
+        ps = c["psel"]
+        ins, samp, hin, hout, m = x["ins"], x["samp"], x["hin"], x["hout"], x["m"]
+        raises = psel_can_raise(ps, m)
         for qi, q in enumerate(c["qins"]):
             if q not in ins:
                 continue
@@ -545,13 +611,7 @@ class C05:
             yield d
 
     def signature(self, c, rec):
-        """known-finding signatures (only used if KNOWN_FINDINGS.txt lists them)."""
-        text = rec.get("oracle") or ""
-        if text.startswith("Analyzer raises") and "heralds carry photons" in text:
-            return "analyzer-herald-photons"
-        if text.startswith("Analyzer raises") and "herald input mode != output mode" in text:
-            return "analyzer-herald-modes-differ"
-        return None
+        return None      # no known finding: F6 (35b3f09) and N14 (e8102ee) are repaired
 
 
 PROP = C05()
